@@ -115,20 +115,6 @@ def runStrict (S : Sys σ) : σ → List Tid → Option σ
     | some s' => runStrict S s' ts
     | none => none
 
-theorem reachable_runStrict (S : Sys σ) {s s' : σ} (h : Reachable S s) (ts : List Tid)
-    (hr : runStrict S s ts = some s') : Reachable S s' := by
-  induction ts generalizing s with
-  | nil => simp [runStrict] at hr; exact hr ▸ h
-  | cons t ts ih =>
-    simp only [runStrict] at hr
-    split at hr
-    · next s1 h1 => exact ih (Reachable.step h h1) hr
-    · cases hr
-
-theorem ReachableR.reachable {S : Sys σ} {ok : σ → Tid → Prop} {s : σ} (h : ReachableR S ok s) : Reachable S s := by
-  induction h with
-  | init => exact .init
-  | step _ _ hs ih => exact .step ih hs
 end Sys
 
 end Gp.Pool
